@@ -167,7 +167,7 @@ Theorem C03_stddev_partial : forall m cells, m <> MStar ->
 Proof. exact batch_stddev_sample. Qed.
 Print Assumptions C03_stddev_partial.
 
-(* FINDING F60 (as found, not repaired): an aggregate call with an arithmetic argument written inside an analytic
+(* FINDING F60 (as found; repaired): an aggregate call with an arithmetic argument written inside an analytic
    function of a windowed query - changed_col(true, sum(x + 1)), lag(max(d.x * 2)) - runs over the bare column *)
 Theorem C03_inline_agg_arg_dropped_refuted :
   exists cells,
@@ -175,6 +175,15 @@ Theorem C03_inline_agg_arg_dropped_refuted :
     spec_batch ASum MExpr (map (eval_arg (ShAff OAdd 1)) cells) = Some (RNum 5).
 Proof. exact inline_agg_arg_dropped_refuted. Qed.
 Print Assumptions C03_inline_agg_arg_dropped_refuted.
+(* the repaired code: the hidden field of such a call computes the definition over ITS argument evaluated per row *)
+Theorem C03_inline_agg_correct : forall f sh cells,
+  f <> AStdDev ->
+  match f with WStdDev | WStdDevS | WVar | WVarS => False | _ => True end ->
+  exists r, sel_batch [inline_field f false sh] cells = [r] /\
+            ores_eq r (spec_batch f (sql_mode sh) (map (eval_arg sh) cells)).
+Proof. exact inline_agg_correct. Qed.
+Print Assumptions C03_inline_agg_correct.
+(* what held of the code as found *)
 Theorem C03_inline_agg_partial : forall f nested sh cells,
   f <> AStdDev ->
   match f with WStdDev | WStdDevS | WVar | WVarS => False | _ => True end ->
